@@ -369,7 +369,7 @@ func macDecode(s string) (string, error) {
 	return charmap.Macintosh.NewDecoder().String(s)
 }
 
-var c11Specials = []string{"my.incomplete.notes", "x.info_y", "a.rsrc_b", "keep.bak", "top secret.txt", "@hidden", "notes.incomplete.txt", strings.Repeat("L", 244), strings.Repeat("M", 253), strings.Repeat("N", 254), strings.Repeat("O", 255)}
+var c11Specials = []string{"SECRET.TXT", "Keep.BAK", "secret plans", "my.incomplete.notes", "x.info_y", "a.rsrc_b", "keep.bak", "top secret.txt", "@hidden", "notes.incomplete.txt", strings.Repeat("L", 244), strings.Repeat("M", 253), strings.Repeat("N", 254), strings.Repeat("O", 255)}
 
 func (s *c11state) genName(label string, d *fnode, maxLen int) string {
 	for tries := 0; tries < 50; tries++ {
@@ -402,7 +402,10 @@ func hasSideFiles(n *fnode) bool {
 
 func c11prop(ev *evid.Rec) func(rt *rapid.T) {
 	return func(rt *rapid.T) {
-		ignoreSet := rapid.SampledFrom([][]string{{`^\.`, `^@`}, {`^\.`, `^@`}, {`^\.`}, {`^\.`, `^@`, `\.bak$`}, {`^\.`, `secret`}, {`^\.`, `^@`, `^L+$`}}).Draw(rt, "ignore")
+		ignoreSet := rapid.SampledFrom([][]string{{`^\.`, `^@`}, {`^\.`, `^@`}, {`^\.`}, {`^\.`, `^@`, `\.bak$`}, {`^\.`, `secret`}, {`^\.`, `^@`, `^L+$`},
+			{`^\.`, `(?i)\.bak$`, `^secret`}, // an inline flag belongs to its own pattern only
+			{`^\.`, `*.bak`, `^@`},           // a pattern that is not a regular expression matches nothing; the others still apply
+		}).Draw(rt, "ignore")
 		own := rapid.IntRange(0, 3).Draw(rt, "ownroot") == 0
 		inWorld(rt, hlsim.Options{Agreement: "a", IgnoreFiles: ignoreSet, Accounts: []hlsim.AccountSpec{acct("admin", "Admin", "adminpw", allAccess)}}, func(rt *rapid.T, w *hlsim.World) {
 			s := &c11state{rt: rt, w: w, ev: ev, root: &fnode{kind: "dir", kids: map[string]*fnode{}}, froot: w.FileRoot}
@@ -411,7 +414,9 @@ func c11prop(ev *evid.Rec) func(rt *rapid.T) {
 				s.froot = ownRoot(rt, w, acct("admin", "Admin", "adminpw", allAccess))
 			}
 			for _, p := range ignoreSet {
-				s.ignore = append(s.ignore, regexp.MustCompile(p))
+				if re, err := regexp.Compile(p); err == nil { // what is not a regular expression matches nothing
+					s.ignore = append(s.ignore, re)
+				}
 			}
 			rec := func(f string, a ...any) { s.history = append(s.history, fmt.Sprintf(f, a...)) }
 			// ---- initial tree, written directly to disk
